@@ -66,8 +66,21 @@ static DWORD scripted_exit_code, rec_wait_ms, rec_ctrl_event, rec_ctrl_group, re
 static HANDLE rec_wait_handle, rec_code_handle, rec_term_handle;
 static int n_ctrl, n_term, n_wait;
 DWORD GetProcessId(HANDLE h) { return pid_of(h); }
-DWORD WaitForSingleObject(HANDLE h, DWORD ms) { rec_wait_handle = h; rec_wait_ms = ms; n_wait++; return 0; }
-BOOL GetExitCodeProcess(HANDLE h, DWORD *code) { rec_code_handle = h; *code = scripted_exit_code; return 1; }
+// a process that is still on its way out (its exit pipe is closed, the process object not yet signalled): a finite
+// wait times out and the exit code reads STILL_ACTIVE until somebody waits for as long as it takes
+static int proc_still_running;
+DWORD WaitForSingleObject(HANDLE h, DWORD ms)
+{
+  rec_wait_handle = h;
+  rec_wait_ms = ms;
+  n_wait++;
+  if (proc_still_running) {
+    if (ms != INFINITE) return WAIT_TIMEOUT;
+    proc_still_running = 0;
+  }
+  return 0;
+}
+BOOL GetExitCodeProcess(HANDLE h, DWORD *code) { rec_code_handle = h; *code = proc_still_running ? STILL_ACTIVE : scripted_exit_code; return 1; }
 BOOL GenerateConsoleCtrlEvent(DWORD ev, DWORD group) { rec_ctrl_event = ev; rec_ctrl_group = group; n_ctrl++; return 1; }
 BOOL TerminateProcess(HANDLE h, UINT code) { rec_term_handle = h; rec_term_code = code; n_term++; return 1; }
 BOOL CloseHandle(HANDLE h)
@@ -655,8 +668,10 @@ static void check_redirect(void)
     int missing = rnd() % 4 == 0;
     if (missing) std_handles[st] = NULL;
     n_std_calls = 0;
+    n_closed = 0;
     HANDLE got = (HANDLE) (intptr_t) 0x9999;
     int r = redirect_parent(&got, (REPROC_STREAM) st);
+    if (n_closed != 0) hviol("win-redirect-handle-closed", "redirect_parent closed a handle (the caller's standard handles are not the library's to close)", none);
     DWORD want_id = st == 0 ? STD_INPUT_HANDLE : st == 1 ? STD_OUTPUT_HANDLE : STD_ERROR_HANDLE;
     if (n_std_calls != 1 || rec_std_id[0] != want_id) {
       snprintf(msg, sizeof msg, "redirect_parent(stream %d) asked GetStdHandle for id %d (%d calls)", st, (int) rec_std_id[0], n_std_calls);
@@ -675,7 +690,14 @@ static void check_redirect(void)
       got = (HANDLE) (intptr_t) 0x9999;
       char path[64];
       snprintf(path, sizeof path, "C:\\dir %d\\f\xc3\xa9%d.txt", (int) (rnd() % 100), st);
+      n_closed = 0;
       r = kind == 0 ? redirect_discard(&got, (REPROC_STREAM) st) : redirect_path(&got, (REPROC_STREAM) st, path);
+      if (r == 0 && n_closed != 0) {
+        int own = 0;
+        for (int j = 0; j < n_closed && j < 16; j++) own += rec_closed[j] == got;
+        snprintf(msg, sizeof msg, "%s(stream %d) succeeded and closed %d handle(s), %d of them the one it returns to the caller", kind ? "redirect_path" : "redirect_discard", st, n_closed, own);
+        hviol("win-redirect-handle-closed", msg, none);
+      }
       DWORD want_access = st == 0 ? GENERIC_READ : GENERIC_WRITE;
       bstr nm = utf16_to_utf8(rec_cf_name, wcslen(rec_cf_name));
       const char *want_name = kind == 0 ? "NUL" : path;
@@ -716,10 +738,13 @@ static void check_life(void)
   static const DWORD BIG[] = { 256, 258, 259, 1000, 65535, 0x7fffffffu };   // Windows exit codes are 32 bits wide
   scripted_exit_code = st_life_cases % 3 == 0 ? 3221225786u : st_life_cases % 7 == 1 ? BIG[rnd() % 6] : (DWORD) (rnd() % 256);
   n_wait = 0;
+  proc_still_running = st_life_cases % 2;
+  int late = proc_still_running;
   int r = process_wait(h);
+  proc_still_running = 0;
   int want = scripted_exit_code == 3221225786u ? REPROC_SIGTERM : (int) scripted_exit_code;
   if (r != want) {
-    snprintf(msg, sizeof msg, "process_wait returned %d for exit code %u, expected %d", r, scripted_exit_code, want);
+    snprintf(msg, sizeof msg, "process_wait returned %d for exit code %u%s, expected %d", r, scripted_exit_code, late ? " (process object signalled only after the wait began)" : "", want);
     hviol("win-wait-status", msg, hh);
   }
   if (n_wait != 1 || rec_wait_handle != h || rec_code_handle != h || rec_wait_ms != INFINITE) {
